@@ -29,7 +29,7 @@ quantity! {
         @nuclear_magneton: 5.050_783_746_1_E-27; "μ(Nuclear)", "nuclear magneton",
             "nuclear magnetons";
         @atomic_unit_of_magnetic_dipole_moment: 1.854_802_015_66_E-23; "ħ · e/mₑ",
-            "atomic unit of magnetic dipole moment", " atomic units of magnetic dipole moment";
+            "atomic unit of magnetic dipole moment", "atomic units of magnetic dipole moment";
         @deuteron_magnetic_moment: 4.330_735_094_E-27; "μ(deuteron)", "deuteron magnetic moment",
             "deuteron magnetic moments";
         @electron_magnetic_moment: -9.284_764_704_3_E-24; "μₑ", "electron magnetic moment",
